@@ -31,11 +31,15 @@ _mulf = z3.Function("mul_", z3.RealSort(), z3.RealSort(), z3.RealSort())
 _divf = z3.Function("div_", z3.RealSort(), z3.RealSort(), z3.RealSort())
 
 
+_ABS_CACHE = {}
+_ABS_KEEP = []      # keeps the abstracted terms alive so that AST ids are not reused
+
+
 def linear_abstraction(formulas):
     """Sound over-approximation: every product of two non-constant factors becomes mul_(a,b) (factors
     ordered canonically, so commutativity is kept), division by a non-constant becomes div_(a,b).
     unsat of the abstraction implies unsat of the original."""
-    cache = {}
+    cache = _ABS_CACHE
 
     def is_const(t):
         return z3.is_rational_value(t) or z3.is_int_value(t) or z3.is_algebraic_value(t)
@@ -75,6 +79,7 @@ def linear_abstraction(formulas):
             except z3.Z3Exception:
                 r = t
         cache[k] = r
+        _ABS_KEEP.append(t)
         return r
 
     return [rec(z3.simplify(f, som=True) if False else f) for f in formulas]
